@@ -97,6 +97,9 @@ func BytesSymLen(max int) []byte {
 // WatchReentryAll is an engine-side monitor (no native effect).
 func WatchReentryAll(recvType, field, id string) {}
 
+// ReentryLimit adds to WatchReentryAll: a re-entry is only allowed when the outer activation saw field < limit.
+func ReentryLimit(limit int, id string) {}
+
 // AssumeViolated is set when a native run contradicts an assumption: the tape is
 // then not a valid input of the harness (engine defect if it came from the engine).
 var AssumeViolated bool
